@@ -14,8 +14,9 @@
   transcribed; the per-second interest factor is a parameter).  Only property statements live here; helper
   lemmas are in KavaVerif/Proofs/Hard*.lean.
 -/
-import KavaVerif.Proofs.HardHistory
+import KavaVerif.Proofs.HardListing
 import KavaVerif.Generated.Consts
+import KavaVerif.Proofs.TieFnHard
 set_option linter.unusedSimpArgs false
 set_option linter.unusedVariables false
 
@@ -347,5 +348,104 @@ theorem C08_liquidation_frame (cfg : Cfg) (hn : cfg.ds.Nodup)
 example : (match liquidate W.cfgLow W.st 1 0 with | .ok s'' => s''.aucs.length | _ => 0) = 1 := by decide
 
 example : W.cfg.ds.Nodup := by decide
+
+/-! ## 4. money markets listed, replaced and delisted by governance
+
+  The money markets are the `cfg` of each step (the history theorems above already let every step have its own), a
+  params change touches no state, and the begin blocker `ApplyInterestRateUpdates` is `applyRateUpdates`: a denom with a
+  money market in the params or in the store (`live`) accrues once with the effective market, a denom with none is
+  skipped; listing and delisting write / delete the money market only. -/
+
+/-- Across a begin blocker — whatever it lists, replaces or delists — the borrow and the supply factor of every denom
+    do not decrease, and the factors of a denom that has no money market (delisted, waiting to be listed again) are
+    exactly what they were: a later listing finds the factors the open positions were indexed with. -/
+theorem C08_relist_index_monotone (cfg : Cfg) (now : Int) (live : Denom → Bool) (phi : Denom → Dec) (apy : Denom → Bool)
+    (ds : List Denom) (s s' : St) (hphi : ∀ d, live d = true → P ≤ (phi d).m)
+    (hb : ∀ e v, s.brwIdx e = some v → 0 ≤ v) (hs : ∀ e v, s.supIdx e = some v → 0 ≤ v)
+    (h : applyRateUpdates cfg now live phi apy ds s = .ok s') :
+    (∀ e, (s.brwIdx e).getD P ≤ (s'.brwIdx e).getD P ∧ (s.supIdx e).getD P ≤ (s'.supIdx e).getD P) ∧
+    (∀ e, live e = false → s'.brwIdx e = s.brwIdx e ∧ s'.supIdx e = s.supIdx e) := by
+  have r := applyRateUpdates_spec cfg now live phi apy hphi ds s s' hb hs h
+  exact ⟨fun e => ⟨r.brwP e, r.supP e⟩, r.dead⟩
+
+/-- "With no action by the user a deposit's claimable amount and a borrow's owed amount never decrease as interest
+    accrues" across a whole begin blocker under governance: nobody's records change and every user's synced borrow and
+    synced deposit of every denom — listed, being listed, being delisted or without a money market — is non-decreasing. -/
+theorem C08_interest_monotone (cfg : Cfg) (now : Int) (live : Denom → Bool) (phi : Denom → Dec) (apy : Denom → Bool)
+    (ds : List Denom) (s s' : St) (hphi : ∀ d, live d = true → P ≤ (phi d).m)
+    (hb : ∀ e v, s.brwIdx e = some v → 0 ≤ v) (hs : ∀ e v, s.supIdx e = some v → 0 ≤ v)
+    (hrec : ∀ u e, (0 ≤ s.bor u e ∧ ∀ v, s.borIdx u e = some v → 0 < v) ∧ (0 ≤ s.dep u e ∧ ∀ v, s.depIdx u e = some v → 0 < v))
+    (h : applyRateUpdates cfg now live phi apy ds s = .ok s') :
+    (∀ u, SameRecords s s' u) ∧
+    ∀ u e, syncBorAmt (s.bor u e) (s.borIdx u e) ((s.brwIdx e).getD 0) ≤
+             syncBorAmt (s'.bor u e) (s'.borIdx u e) ((s'.brwIdx e).getD 0) ∧
+           syncSupAmt (s.dep u e) (s.depIdx u e) ((s.supIdx e).getD 0) ≤
+             syncSupAmt (s'.dep u e) (s'.depIdx u e) ((s'.supIdx e).getD 0) := by
+  have r := applyRateUpdates_spec cfg now live phi apy hphi ds s s' hb hs h
+  refine ⟨?_, ?_⟩
+  · intro u
+    unfold SameRecords
+    rw [r.dep, r.depIdx, r.bor, r.borIdx]
+    exact ⟨rfl, rfl, rfl, rfl⟩
+  · intro u e
+    rw [r.dep, r.depIdx, r.bor, r.borIdx]
+    have hg0 : 0 ≤ (s.supIdx e).getD 0 := by
+      cases hv : s.supIdx e with
+      | none => simp
+      | some v => simpa using hs e v hv
+    exact ⟨syncBorAmt_mono _ _ _ _ (hrec u e).1.1 (hrec u e).1.2 (r.brw0 e),
+           syncSupAmt_mono _ _ _ _ (hrec u e).2.1 (hrec u e).2.2 hg0 (r.sup0 e)⟩
+
+/-- the begin blocker under governance does not panic: factors ≥ 1 for the denoms that accrue, reserve factors of the
+    effective markets in [0,1], borrowed totals not negative -/
+theorem C08_begin_no_panic (cfg : Cfg) (now : Int) (live : Denom → Bool) (phi : Denom → Dec) (apy : Denom → Bool)
+    (ds : List Denom) (s : St) (hn : ds.Nodup) (hphi : ∀ d, live d = true → P ≤ (phi d).m)
+    (hrf : ∀ d, 0 ≤ (cfg.mkt d).reserveFactor.m ∧ (cfg.mkt d).reserveFactor.m ≤ P)
+    (hbor : ∀ d ∈ ds, 0 ≤ s.borrowed d) :
+    applyRateUpdates cfg now live phi apy ds s ≠ .panic :=
+  applyRateUpdates_no_panic cfg now live phi apy hphi hrf ds s hn hbor
+
+/-- non-vacuity: denom 0 has no money market (skipped), denom 1 accrues a year at factor 1.1 -/
+example : (applyRateUpdates W.cfg 31536000 (fun d => d != 0) (fun _ => ⟨P + P / 10⟩) (fun _ => true) W.cfg.ds W.st).isOk = true := by
+  decide
+
+/-! ## source tie (regenerated)
+
+    `GoFn.Hard.*` (Generated/FnHard.lean) is regenerated on every run from the Go source of
+    x/hard/keeper/interest.go by the function translator (tools/extract/fn*.go).  The theorems say that the
+    regenerated definitions ARE the functions the model uses (`supplyFactor`) resp. the closed forms
+    `TieFn.hardUtilization` / `TieFn.hardBorrowRate` (the borrow rate enters the model only through the
+    per-second factor `phi`), and that they never panic.  A source edit re-opens the obligation of the
+    edited function.  Proofs: Proofs/TieFnHard.lean. -/
+
+/-- `CalculateSupplyInterestFactor` on the integer-valued arguments `AccrueInterest` passes = `supplyFactor`
+    (in particular: no division by zero, factor 1 when cash + borrows − reserves is not positive). -/
+theorem C08_source_tie_CalculateSupplyInterestFactor (newInterest cash borrows reserves : Int) :
+    GoFn.Hard.CalculateSupplyInterestFactor_translated = true ∧
+    GoFn.Hard.CalculateSupplyInterestFactor (Dec.ofInt newInterest) (Dec.ofInt cash) (Dec.ofInt borrows)
+        (Dec.ofInt reserves)
+      = Go.R.ok (supplyFactor newInterest cash borrows reserves) :=
+  TieFn.hard_CalculateSupplyInterestFactor newInterest cash borrows reserves
+
+/-- `CalculateUtilizationRatio` never panics (no division by zero for any cash / borrows / reserves) and lies
+    in [0, 1] for non-negative borrows: 0 without borrows, 1 when cash + borrows − reserves ≤ 0, else
+    min(1, borrows / (cash + borrows − reserves)). -/
+theorem C08_source_tie_CalculateUtilizationRatio (cash borrows reserves : Dec) :
+    GoFn.Hard.CalculateUtilizationRatio_translated = true ∧
+    GoFn.Hard.CalculateUtilizationRatio cash borrows reserves
+      = Go.R.ok (TieFn.hardUtilization cash borrows reserves) ∧
+    (0 ≤ borrows.m → 0 ≤ (TieFn.hardUtilization cash borrows reserves).m ∧
+      (TieFn.hardUtilization cash borrows reserves).m ≤ P) :=
+  ⟨(TieFn.hard_CalculateUtilizationRatio cash borrows reserves).1,
+   (TieFn.hard_CalculateUtilizationRatio cash borrows reserves).2,
+   TieFn.hard_utilization_range cash borrows reserves⟩
+
+/-- `CalculateBorrowRate` never panics or errors and is the kinked line of the interest-rate model evaluated at
+    the utilization ratio. -/
+theorem C08_source_tie_CalculateBorrowRate (m : GoFn.Hard.InterestRateModel) (cash borrows reserves : Dec) :
+    GoFn.Hard.CalculateBorrowRate_translated = true ∧
+    GoFn.Hard.CalculateBorrowRate m cash borrows reserves
+      = Go.R.ok (TieFn.hardBorrowRate m cash borrows reserves) :=
+  TieFn.hard_CalculateBorrowRate m cash borrows reserves
 
 end KV.Hard
